@@ -32,12 +32,12 @@ def richardson_params(I, obj):
     return {k: r.attrs.get(k) for k in ('step_ratio', 'step', 'order', 'num_terms')}
 
 
-def run_one(rep, P, cls, method, n, order, gen_kind, rule_id='R-E2E', dim=None, extra_k=None):
+def run_one(rep, P, cls, method, n, order, gen_kind, rule_id='R-E2E', dim=None, extra_k=None, complex_valued=False):
     """One configuration.  gen_kind: 'sym-min' | 'sym-max' | 'default'."""
     I = P.interp
     core = P.repo.module('core')
     P.clear_cache()
-    label = '%s/%s/n=%s/order=%s/steps=%s' % (cls, method, n, order, gen_kind)
+    label = '%s/%s/n=%s/order=%s/steps=%s%s' % (cls, method, n, order, gen_kind, '/complex valued f' if complex_valued else '')
     construct = 'core.%s._derivative_nonzero_order' % ('Jacobian' if cls in ('Jacobian', 'Gradient') else 'Derivative')
     where = core.relpath
     if gen_kind == 'sym-min':
@@ -47,12 +47,15 @@ def run_one(rep, P, cls, method, n, order, gen_kind, rule_id='R-E2E', dim=None, 
     else:
         step = None
     try:
+        FV.value_kind = 'c' if complex_valued else 'f'
         obj, x = P.build(cls, method, order, n=n, step=step, dim=dim)
         (der, h, shape), fxi = I.getattr(obj, '_derivative_nonzero_order')(x, (), {})
     except InterpRaise as exc:
         rep.violation(rule_id, construct, where, {'raises': exc.exc_name, 'message': exc.msg[:120]},
                       'a valid configuration does not raise', label, key='e2e-raises %s' % method)
         return
+    finally:
+        FV.value_kind = 'f'
     rp = richardson_params(I, obj)
     nn = int(I.getattr(obj, 'n'))
     ratio = rp['step_ratio']
@@ -83,9 +86,14 @@ def run_one(rep, P, cls, method, n, order, gen_kind, rule_id='R-E2E', dim=None, 
             e = der[i, c]
             hi = Poly.of(h[i, c])
             vdim = dim
-            sig = taylor_signature(e, None, vdim, kmax)
             coord = c if dim is not None else 0
-            for alpha, p in sorted(sig.items()):
+            if type(e).__name__ == '_Border':
+                problems.append('row %d col %d: the estimate comes from a convolution window that left the array (it depends on '
+                                'the boundary mode of convolve1d, not only on the difference quotients)' % (i, c))
+                continue
+            sigs = [taylor_signature(e, None, vdim, kmax)] if not complex_valued else \
+                [taylor_signature(e, None, vdim, kmax, valued='u'), taylor_signature(e, None, vdim, kmax, valued='v')]
+            for alpha, p in [it for sg in sigs for it in sorted(sg.items())]:
                 k = sum(alpha)
                 res, unres, notes = P.reg.resolve(p)
                 pure = (dim is None) or all(a == 0 for j, a in enumerate(alpha) if j != coord)
